@@ -213,6 +213,8 @@ class Machine(RuleBasedStateMachine):
             st_.count("feature:" + f)
         for d in self.w.history:
             st_.count("op:" + d["op"])
+        if getattr(self.w, "never_used_compared", 0):
+            st_.count("never-used-object-comparisons", self.w.never_used_compared)
         if self.w.known_kf2:
             st_.excluded_known["KF2"] = st_.excluded_known.get("KF2", 0) + self.w.known_kf2
         interesting = self.w.features & {"shared-other-point", "after-failure", "after-simplification"}
